@@ -4,6 +4,7 @@ import (
 	"encoding/hex"
 	"fmt"
 	"sort"
+	"strconv"
 	"strings"
 	"unicode"
 	"unicode/utf8"
@@ -45,11 +46,16 @@ func runesOf(s string) string {
 	var parts []string
 	for len(s) > 0 {
 		r, size := utf8.DecodeRuneInString(s)
-		parts = append(parts, fmt.Sprintf("%s/%d/%s%s%s/%d", hex.EncodeToString([]byte(s[:size])), r,
-			vh.B(unicode.IsLetter(r)), vh.B(unicode.IsNumber(r)), vh.B(unicode.IsDigit(r)), unicode.ToLower(r)))
+		parts = append(parts, rnS(s[:size], r))
 		s = s[size:]
 	}
 	return strings.Join(parts, ".")
+}
+
+// rnS is the model's view of one rune: the bytes it came from, the code point and what Go's unicode tables say.
+func rnS(raw string, r rune) string {
+	return fmt.Sprintf("%s/%d/%s%s%s%s/%d", hex.EncodeToString([]byte(raw)), r,
+		vh.B(unicode.IsLetter(r)), vh.B(unicode.IsNumber(r)), vh.B(unicode.IsDigit(r)), vh.B(unicode.IsSpace(r)), unicode.ToLower(r))
 }
 
 func decodeAll(s string) []rune {
@@ -210,7 +216,7 @@ func pipesS(ps []parser.Pipe) string {
 }
 
 func (c *ctx) caseLex(mid string, cs bool, q string, tag string) {
-	beginCase("lex " + mid + " " + q)
+	beginCase(fmt.Sprintf("lex %s %s %s", mid, vh.B(cs), hexs(q)))
 	defer endCase()
 	m := mappingByID(mid)
 	toks, ended := parser.VerifLex(q, len(q)+2)
@@ -263,5 +269,246 @@ func (c *ctx) caseLex(mid string, cs bool, q string, tag string) {
 		}
 	}
 	kind := strings.Fields(impl)[0]
+	if c.nLex > 0 && c.nLex%20000 == 0 {
+		c.chLex.Flush(c.o.Driver) // keep the queue of pending requests small
+	}
+	c.nLex++
 	c.chLex.Add(req, impl, kind == "ok" && len(toks) > 3, "result="+kind, "gen="+tag, "mapping="+mid, fmt.Sprintf("ntok=%d", min(len(toks), 40)/5*5))
+}
+
+// Channel legacy.str: ParseQuery / ParseAggregationFilter on strings vs the rune-level model of the legacy parser
+// (SV.Parser.parseQueryRunes / parseAggFilter) run on []rune(query) annotated with Go's unicode tables.
+
+func runesOfLegacy(q string) string {
+	rs := []rune(q)
+	if len(rs) == 0 {
+		return "-"
+	}
+	parts := make([]string, len(rs))
+	for i, r := range rs {
+		parts[i] = rnS(string(r), r)
+	}
+	return strings.Join(parts, ".")
+}
+
+func (c *ctx) caseLegacyStr(mid string, cs bool, q string, tag string) {
+	beginCase(fmt.Sprintf("lgstrq %s %s %s", mid, vh.B(cs), hexs(q)))
+	defer endCase()
+	m := mappingByID(mid)
+	rs := runesOfLegacy(q)
+	conf.CaseSensitive = cs
+	var root *parser.ASTNode
+	var err error
+	p, _, _ := guarded(func() { root, err = parser.ParseQuery(q, m) })
+	impl := "panic"
+	switch {
+	case p:
+	case err != nil:
+		impl = "err"
+	default:
+		var out []string
+		if e := treeS(root, &out); e != nil {
+			impl = "ok ?" + e.Error()
+		} else {
+			impl = "ok " + strings.Join(out, ",")
+		}
+	}
+	if c.nLg > 0 && c.nLg%20000 == 0 {
+		c.chLgStr.Flush(c.o.Driver)
+	}
+	c.nLg++
+	kind := strings.Fields(impl)[0]
+	c.chLgStr.Add(fmt.Sprintf("lgstr %s %s %s", vh.B(cs), modelMappingOf(m), rs), impl, kind == "ok" && len(q) > 8, "result="+kind, "gen="+tag, "mapping="+mid)
+	// aggregation filter (no mapping)
+	var lit *parser.Literal
+	p, _, _ = guarded(func() { lit, err = parser.ParseAggregationFilter(q) })
+	conf.CaseSensitive = false
+	impl = "panic"
+	switch {
+	case p:
+	case err != nil:
+		impl = "err"
+	case lit == nil:
+		impl = "ok -"
+	default:
+		s, _ := leafS(lit)
+		impl = "ok " + s
+	}
+	c.chLgStr.Add(fmt.Sprintf("aggstr %s %s", vh.B(cs), rs), impl, strings.HasPrefix(impl, "ok L"), "agg="+strings.Fields(impl)[0])
+}
+
+// goodLegacy generates a mostly well-formed legacy query.
+func goodLegacy(r *vh.RNG) string {
+	fields := []string{"fk", "ft", "fp", "fm", "fm.keyword", "_all_", "_exists_", "service", "message", "level", "request_uri"}
+	words := []string{"a", "abc", "Error", "payment\\-api", "a_b.c", "x1", "Ünïcode", "日本語", "K", "İstanbul", "1e3", "a\\-b", "some*", "*end", "mi*dle", "*", "a\\ b", "a\\:b", "a\\/b",
+		`"two words"`, `"esc\\"aped"`, `"wild*card"`, `"lit\\*star"`, `"back\\\\slash"`, `"odd\\qescape"`, `"A B  C"`, `"x:y/z"`, `""`, `"a-b"`, "a-b", "http"}
+	var atom func() string
+	atom = func() string {
+		f := fields[r.Intn(len(fields))]
+		switch r.Intn(7) {
+		case 0:
+			lo, hi := words[r.Intn(len(words))], words[r.Intn(len(words))]
+			return f + ":" + string("[{"[r.Intn(2)]) + lo + []string{" TO ", " to ", " To "}[r.Intn(3)] + hi + string("]}"[r.Intn(2)])
+		case 1:
+			return f + ": " + words[r.Intn(len(words))]
+		}
+		return f + ":" + words[r.Intn(len(words))]
+	}
+	var expr func(d int) string
+	expr = func(d int) string {
+		if d <= 0 || r.Chance(2, 5) {
+			return atom()
+		}
+		switch r.Intn(5) {
+		case 0:
+			return []string{"NOT ", "not ", "Not "}[r.Intn(3)] + expr(d-1)
+		case 1:
+			return "(" + expr(d-1) + ")"
+		case 2:
+			return expr(d-1) + []string{" OR ", " or "}[r.Intn(2)] + expr(d-1)
+		}
+		return expr(d-1) + []string{" AND ", " and ", "  And\t"}[r.Intn(3)] + expr(d-1)
+	}
+	return expr(1 + r.Intn(4))
+}
+
+func (c *ctx) runLegacyStr(r *vh.RNG) {
+	mids := []string{"full", "test", "safe", "nil"}
+	for _, f := range hostileFields {
+		for _, v := range hostileValues {
+			c.caseLegacyStr("full", false, f+":"+v, "directed")
+		}
+	}
+	for _, v := range hostileValues {
+		for _, mid := range mids {
+			c.caseLegacyStr(mid, true, "ft:"+v, "directed")
+			c.caseLegacyStr(mid, false, "fk:"+v+" AND ft:"+v, "directed")
+			c.caseLegacyStr(mid, false, "fp:["+v+" TO "+v+"]", "directed")
+			c.caseLegacyStr(mid, false, "("+v+")", "directed")
+		}
+	}
+	for i := 0; i < c.o.Pick(15000, 250000); i++ {
+		c.caseLegacyStr(mids[r.Intn(4)], r.Bool(), goodLegacy(r), "good")
+	}
+	for i := 0; i < c.o.Pick(15000, 250000); i++ {
+		c.caseLegacyStr(mids[r.Intn(4)], r.Bool(), hostileString(r), "hostile")
+	}
+	alphabet := "()[]{}:\"'`\\*|,#-_.$ \n\t\xff\xc3aA0"
+	for i := 0; i < c.o.Pick(10000, 150000); i++ {
+		s := goodLegacy(r)
+		for m := 1 + r.Intn(2); m > 0 && len(s) > 0; m-- {
+			j := r.Intn(len(s))
+			switch r.Intn(3) {
+			case 0:
+				s = s[:j] + s[j+1:]
+			case 1:
+				s = s[:j] + string(alphabet[r.Intn(len(alphabet))]) + s[j:]
+			case 2:
+				s = s[:j] + string(alphabet[r.Intn(len(alphabet))]) + s[j+1:]
+			}
+		}
+		c.caseLegacyStr(mids[r.Intn(4)], r.Bool(), s, "mutated")
+	}
+}
+
+// Channel seqql.lexer: the real lexer's token stream (VerifLex) vs SV.Parser.lexAll on the runes of the query,
+// annotated with Go's unicode tables and with strconv.UnquoteChar's answer at every position (both quote characters).
+
+func uqS(q string, quote byte) string {
+	v, _, tail, err := strconv.UnquoteChar(q, quote)
+	if err != nil {
+		return "-"
+	}
+	consumed := q[:len(q)-len(tail)]
+	return rnS(string(v), v) + "~" + strconv.Itoa(len(decodeAll(consumed)))
+}
+
+func (c *ctx) caseLexer(q string, tag string) {
+	beginCase("lexerq " + hexs(q))
+	defer endCase()
+	toks, ended := parser.VerifLex(q, len(q)+2)
+	if !ended {
+		c.violate("parser/seqql.go:Next", "no-termination", fmt.Sprintf("the lexer does not reach the end of %q within len+2 tokens", q), "lexerq "+hexs(q))
+		return
+	}
+	var parts []string
+	for i := 0; i < len(q); {
+		r, size := utf8.DecodeRuneInString(q[i:])
+		parts = append(parts, rnS(q[i:i+size], r)+"!"+uqS(q[i:], '\'')+"!"+uqS(q[i:], '"'))
+		i += size
+	}
+	req := "lexer -"
+	if len(parts) > 0 {
+		req = "lexer " + strings.Join(parts, ".")
+	}
+	ts := make([]string, len(toks))
+	for i, t := range toks {
+		fl := []byte("---")
+		if t.Quoted {
+			fl[0] = 'q'
+		}
+		if t.SpaceSkipped {
+			fl[1] = 's'
+		}
+		if t.Raw && t.Quoted {
+			fl[2] = 'r'
+		}
+		ts[i] = string(fl) + ":" + hexs(t.Token)
+	}
+	impl := "ok -"
+	if len(ts) > 0 {
+		impl = "ok " + strings.Join(ts, ";")
+	}
+	if c.nLexer > 0 && c.nLexer%20000 == 0 {
+		c.chLexer.Flush(c.o.Driver)
+	}
+	c.nLexer++
+	quoted := false
+	for _, t := range toks {
+		quoted = quoted || t.Quoted
+	}
+	c.chLexer.Add(req, impl, quoted || len(toks) > 4, "gen="+tag, fmt.Sprintf("ntok=%d", min(len(toks), 40)/5*5), "quoted="+vh.B(quoted))
+}
+
+func (c *ctx) runLexer(r *vh.RNG) {
+	// exhaustive: every string over a small hostile alphabet up to a length bound
+	alpha := []string{"a", " ", "'", "\"", "`", "\\", "*", "#", "\n", ":", "x", "\xff", "é", "n", "u", "0", "-", "("}
+	var rec func(prefix string, n int)
+	rec = func(prefix string, n int) {
+		c.caseLexer(prefix, "exhaustive")
+		if n == 0 {
+			return
+		}
+		for _, a := range alpha {
+			rec(prefix+a, n-1)
+		}
+	}
+	rec("", c.o.Pick(3, 4))
+	for _, v := range hostileValues {
+		c.caseLexer(v, "values")
+		c.caseLexer("fk:"+v+" and "+v, "values")
+	}
+	esc := []string{`\n`, `\t`, `\\`, `\"`, `\'`, `\x41`, `\x4`, `\u00e9`, `\u00e`, `\U0001F600`, `\101`, `\8`, `\q`, `\*`, `*`, `\`, "é", "\xff", "\xc3", "a", " ", "`", "'", `"`, "#", "\n"}
+	for i := 0; i < c.o.Pick(20000, 300000); i++ {
+		var sb strings.Builder
+		for k := r.Intn(4); k >= 0; k-- {
+			switch r.Intn(4) {
+			case 0:
+				sb.WriteString(hostileString(r))
+			case 1:
+				sb.WriteString(goodString(r))
+			default:
+				q := []string{"'", `"`, "`"}[r.Intn(3)]
+				sb.WriteString(q)
+				for n := r.Intn(6); n > 0; n-- {
+					sb.WriteString(esc[r.Intn(len(esc))])
+				}
+				if r.Chance(5, 6) {
+					sb.WriteString(q)
+				}
+			}
+			sb.WriteString([]string{" ", "", ":", " # c\n"}[r.Intn(4)])
+		}
+		c.caseLexer(sb.String(), "random")
+	}
 }
